@@ -75,7 +75,7 @@ OPS = ["store", "store_metadata_evaluation", "store_metadata_ready", "remove", "
 
 
 SIBLING = [None]
-SIB_KEY = "a/b"
+SIB_KEY = "zz/s"        # outside KEYS: the listing of metadata-only entries of the tested cache is not constrained
 
 
 def _storecache(store, flat):
@@ -261,7 +261,7 @@ def ob_map(pre: int, ki: int, ti: int, attr: int) -> bool:
         if SIBLING[0] is not None:
             # a cache on a shared store owns only what lies below its own path: the sibling's entry is neither listed nor touched
             sg = SIBLING[0].get(SIB_KEY)
-            ok = ok and sg is not None and sg.data == "sibling" and listed.count(SIB_KEY) == (1 if SIB_KEY in model else 0)
+            ok = ok and sg is not None and sg.data == "sibling" and SIB_KEY not in listed
             ok = ok and list(SIBLING[0].keys()) == [SIB_KEY]
     return check(ok)
 
